@@ -476,6 +476,11 @@ func main() {
 	c.vals = c.newKeys(r.PickInt(1, 3, 4))
 	_ = sdk.AccAddress{}
 	for i := 0; i < n; i++ {
+		if i == n*2/3 {
+			// the last third of the chain runs in the year 2300: Unix seconds that no longer fit 32 bits, and times whose
+			// nanosecond count overflows int64 (time.Time.UnixNano is undefined there)
+			c.now = time.Unix(10_413_792_000, 0)
+		}
 		runCase(app, tr, r, c)
 	}
 	tr.Close()
